@@ -227,6 +227,28 @@ int main(int argc, char** argv) {
     run.sample("geom", case_json(cases[cases.size() / 2 + 7]));
     run.bound("geom", fmt("%d leaf contents x %zu^2 reference placements%s x own-content variants: bbox+hull of TOP, MID, LEAF and both references, element boxes", NLEAF, specs.size(), T ? "" : " (quick: origins/magnifications tied)"), ok, (int64_t)cases.size());
 
+    // ---- reductions: magnification 0.5 on one or both levels (the main space only magnifies by 1 and 2)
+    std::vector<RefSpec> half, other;
+    for (int rot : {0, 1, 4, 7}) for (int refl = 0; refl < 2; refl++) for (int rep : {REP_NONE, REP_RECT, REP_REGULAR, REP_EXPLICIT}) {
+        if (!T && rot == 7 && rep != REP_NONE) continue;
+        half.push_back({rot, refl, 2, 1, rep});
+        other.push_back({rot, refl, rot == 7 ? 0 : 1, rot == 7 ? 0 : 1, rep});
+    }
+    std::vector<CaseId> rc;
+    for (int leaf = 0; leaf < NLEAF; leaf++)
+        for (size_t i = 0; i < half.size(); i++) for (size_t j = 0; j < half.size(); j++) {
+            if (!T && half[i].refl != half[j].refl && half[i].rep != REP_NONE && half[j].rep != REP_NONE) continue;
+            bool me = !leaf_degenerate(leaf);
+            rc.push_back({leaf, half[i], half[j], me});
+            rc.push_back({leaf, half[i], other[j], me});
+            rc.push_back({leaf, other[i], half[j], me});
+        }
+    int64_t nch3 = ((int64_t)rc.size() + chunk - 1) / chunk;
+    auto body3 = [&](int64_t ci) { for (int64_t i = ci * chunk; i < std::min<int64_t>(rc.size(), (ci + 1) * chunk); i++) run_case(rc[i], false); };
+    bool ok3 = parallel_for(run, nch3, body3, [&](int64_t ci) { return jobj({{"first_hierarchy_of_chunk", case_json(rc[ci * chunk])}}); }, [&](int64_t ci) { return case_replay(rc[ci * chunk]); }, PFOptions{30, "geom.reduce.crash", true});
+    run.sample("geom.reduce", case_json(rc[rc.size() / 2 + 1]));
+    run.bound("geom.reduce", fmt("%d leaf contents x %zu^2 placement pairs x {0.5/0.5, 0.5/2, 2/0.5} magnifications: same oracles as geom", NLEAF, half.size()), ok3, (int64_t)rc.size());
+
     // ---- cache histories on a reduced set: rot in {0, 0.5}, both reflections, rep in {none, explicit, rect}
     std::vector<CaseId> hc;
     for (int leaf = 0; leaf < NLEAF; leaf++)
